@@ -91,4 +91,39 @@ theorem clearDeAgg_idem (g : GEx) : g.clearDeAgg.clearDeAgg = g.clearDeAgg := by
 theorem obsEq_clearDeAgg (g : GEx) : ObsEq g.clearDeAgg g :=
   ⟨fun x => str_clearDeAgg x g, encodedWidth_clearDeAgg g, fun cfg b => toEx_clearDeAgg cfg b g⟩
 
+/-! Sender-side buffer ownership. -/
+
+/-- With freshly allocated outputs the heap only grows: the old heap is a prefix of the new
+    one, the new buffers hold the encodings in order, the ids count up. -/
+theorem sendAll_fresh (heap : List Wire) (gs : List GEx) :
+    sendAll .fresh heap gs = (heap ++ gs.map enc, (List.range gs.length).map (· + heap.length)) := by
+  induction gs generalizing heap with
+  | nil => simp [sendAll]
+  | cons g gs ih =>
+      simp only [sendAll, marshalInto, ih, List.map_cons, List.length_cons, List.length_append,
+        List.length_nil, List.append_assoc, List.cons_append, List.nil_append]
+      refine Prod.ext rfl ?_
+      simp only [List.range_succ_eq_map, List.map_cons, List.map_map, Nat.zero_add, List.cons.injEq, true_and]
+      apply List.map_congr_left
+      intro a _
+      simp only [Function.comp]
+      omega
+
+/-- Buffers handed out earlier are never written again: whatever is marshalled later, every
+    buffer of the old heap still reads the same. -/
+theorem sendAll_fresh_stable (heap : List Wire) (gs : List GEx) (i : Nat) (h : i < heap.length) :
+    (sendAll .fresh heap gs).1[i]? = heap[i]? := by
+  rw [sendAll_fresh]
+  simp [List.getElem?_append_left h]
+
+theorem delivered_fresh (gs : List GEx) : delivered .fresh gs = gs.map (fun g => some (enc g)) := by
+  simp only [delivered, sendAll_fresh, List.length_nil, Nat.add_zero, List.nil_append, List.map_map]
+  apply List.ext_getElem?
+  intro i
+  simp only [List.getElem?_map]
+  by_cases h : i < gs.length
+  · simp [h]
+  · simp [List.getElem?_eq_none (by simpa using Nat.le_of_not_lt h : (List.range gs.length).length ≤ i),
+      List.getElem?_eq_none (Nat.le_of_not_lt h)]
+
 end Zeno
